@@ -488,6 +488,8 @@ Section Loc.
       unfold copy_body. apply loc_bind; [apply loc_find|intros ro].
       destruct (copy_lookup ro m); [apply loc_ret|].
       apply loc_bind; [now apply loc_push_type|intros new].
+      apply (locQ_bind hspan_ok); [apply locQ_find_type|intros tb Htb].
+      destruct (is_basic tb); [apply loc_bind; [now apply loc_set_type|intros _; apply loc_ret]|].
       apply (locQ_bind (fun n => hspan_ok (nty n))); [apply locQ_find_node|intros n _].
       apply loc_bind.
       { apply loc_foldM_in. intros b c _. apply loc_bind; [apply loc_copy_constr|intros; apply loc_ret]. }
